@@ -287,7 +287,8 @@ CHECKS["C11"] = dict(
          "forms advance by size-n only when size>=n; every checker's final verdict equals its specification on all "
          "valuations; the first-fit loops consume exactly one pending matcher per matched element by swap-remove, "
          "permutation stops at the first unmatched element and includes does not, with no other exit; element lists "
-         "are folded completely and in order; C arrays are stored as spans, containers by value.",
+         "are folded completely and in order; C arrays are stored as spans, containers by value. "
+         "For the listed-elements forms of range_is / range_starts_with: the verdicts of the elements are conjoined (an earlier mismatch is never overwritten) and every listed element consumes exactly one member of the range whether it matches or not.",
     design_ref="DESIGN.md section 4, C11",
     note="Not decided: which of several overlapping matchers the greedy first fit assigns (the statement defers to the "
          "documented first-fit), nor anything about concrete multisets.")
